@@ -129,5 +129,6 @@ func init() {
 			Rule:   "fixed probes for the carried finding KF2 (non-word loop made atomic before \\B)",
 			Corpus: c05Probes, N: 0, Gen: nil, Check: c05ProbeCheck,
 		})
+		c05RegisterCert(c)
 	})
 }
